@@ -1249,7 +1249,7 @@ def share_roots(a, b):
 ALIAS_KEY = "stale-hash:subst_type_inplace:alias-outside-target"
 
 
-def inplace_case(ctx, rng, dg, replay=None):
+def inplace_case(ctx, rng, dg, replay=None, B=None):
     """subst_type_inplace on a DAG: the target must become the instantiated term (every shared
     sub-object updated ONCE), and hash / == must be those of its new structure"""
     from kernel.type import TyInst
@@ -1291,15 +1291,57 @@ def inplace_case(ctx, rng, dg, replay=None):
     for kind, what, key in fails:
         if replay is None:
             report(ctx, kind, what, rp, key=key)
+    if B is not None:
+        # the same scenario in the model's heap with memoised hashes (Model.lean (d)): the model
+        # over-approximates which objects carry a memo (all that `hash` reaches), so only
+        # "model consistent => implementation consistent" is demanded
+        evs = []
+        for i, n in enumerate(rp["dag"]["nodes"]):
+            k = n[0]
+            if k in ("sv", "v", "c"):
+                node = [k, sexp.enc(n[1]), sexp.loads(n[2])]
+            elif k == "ap":
+                node = ["ap", n[1], n[2]]
+            elif k == "ab":
+                node = ["ab", sexp.enc(n[1]), sexp.loads(n[2]), n[3]]
+            else:
+                node = ["b", n[1]]
+            evs.append(["mk", i, node])
+        roots = rp["dag"]["roots"]
+        evs += [["hash", a] for a in roots]
+        evs.append(["inplace", kwire.tyinst_to(d), roots[0]])
+        evs += [["obs", a] for a in roots]
+        pyobs = []
+        for t in [target] + others:
+            fresh = rebuild(t)
+            pyobs.append((pycall(lambda: hash(t) == hash(fresh)) == ("ok", True), sexp.dumps(kwire.canon_term(wire(t)))))
+        clean = not any(kind == "subst_type_inplace" for kind, _, _ in fails)
+
+        def cb(ans, ln, pyobs=pyobs, clean=clean):
+            if ans == "bad-op" or ans[0] != "ok" or len(ans) - 1 != len(pyobs):
+                mismatch(ctx, "b:inplace-model", "the model cannot follow %s: %s" % (ln[:400], ans))
+                return
+            for (pcons, pstruct), m in zip(pyobs, ans[1:]):
+                mstruct = sexp.dumps(kwire.canon_term(m[2])) if m[2] != "none" else None
+                if clean and mstruct != pstruct:
+                    mismatch(ctx, "b:inplace-structure", "after subst_type_inplace the implementation has %s, the model %s; %s" % (pstruct[:300], (mstruct or "none")[:300], ln[:300]))
+                    return
+                if m[1] == "T" and not pcons:
+                    mismatch(ctx, "b:inplace-memo", "the model predicts a consistent hash, the implementation's is stale: %s" % ln[:500])
+                    return
+                ctx.count("info:inplace-memo-model-%s-impl-%s" % ("consistent" if m[1] == "T" else "stale", "consistent" if pcons else "stale"))
+        B.ask(["memo", True, evs], cb)
     return fails
 
 
 def stream_inplace(ctx):
     rng = ctx.rng("inplace")
+    B = Batch(ctx, "b-inplace")
     for i in range(ctx.scale(150, 3000)):
         # a new pool per case: the objects of an earlier case have been rewritten in place
-        inplace_case(ctx, rng, DagGen(rng, share=0.5))
+        inplace_case(ctx, rng, DagGen(rng, share=0.5), B=B)
         ctx.case(("inplace", i), nontrivial=False)
+    B.flush()
 
 
 # ------------------------------------------------------------------ stream (c): terms obtained by parsing text
